@@ -294,8 +294,7 @@ class CG(nn.Module):
         else:
             assert A.ndim == b.ndim, \
                 'The number of dimensions of A and b must be the same or one more than b'
-        if x is None:
-            x = torch.zeros_like(b)
+        x = torch.zeros_like(b) if x is None else x.clone()
         bnrm2 = torch.linalg.norm(b, dim=0)
         if (bnrm2 == 0).all():
             return b
